@@ -14,7 +14,7 @@ LEVEL = {
     "C06": ("proof", "Theorems C06_source_tables (parser tables as translated from the source text on this run) / C06_accept_sound / C06_only_syntax_error / C06_no_late_error for every string (AcceptSound, ShapeSound: an accepted string consists of documented dimension forms with the grammar's postfix program, a rejection is SyntaxError, later evaluation fails only for unbound names or undefined arithmetic). Correspondence: corpus, exhaustive alphabet strings, mutations, identifier positions, noise; reference = independent recogniser." + CORR, "DESIGN.md 7 C06"),
     "C07": ("proof", "Theorems C07_args_first / C07_return_checked / C07_value_only_after_both on the phase structure of run_call + correspondence with a side-effect log in the wrapped body: one fault in a single argument position or only in the return value." + CORR, "DESIGN.md 7 C07"),
     "C08": ("proof", "Theorems C08_first_failing_tensor / C08_tensor_report / C08_axis_report / C08_only_dltype_or_arithmetic (Reports, NoCrash: what a rejection asserts is true of the named tensor under the bindings established before it; the only non-DLType exceptions are the arithmetic ones = known finding K1). Correspondence: single-fault reports field by field, multi-fault factuality." + CORR, "DESIGN.md 7 C08"),
-    "C09": ("proof", "Theorems C09_history_isolated / C09_calls_commute / C09_decoration_order / C09_lazy_resolution_is_eager (hints resolved at the first call and kept per function: Lazy.v) over World.v (alias-shared annotation objects, provider-owned mappings) for the repaired semantics, machine-checked refutations for the legacy one. Correspondence: families sharing aliases and long-lived provider dicts, random decoration order, 8-thread runs, nested calls; thread interleavings are tested, not proved." + CORR, "DESIGN.md 7 C09"),
+    "C09": ("proof", "Theorems C09_history_isolated / C09_calls_commute / C09_decoration_order / C09_lazy_resolution_is_eager (hints resolved at the first call and kept per function: Lazy.v) / C09_nested_calls_isolated (bodies that make checked calls, recursion: Nested.v) over World.v (alias-shared annotation objects, provider-owned mappings) for the repaired semantics, machine-checked refutations for the legacy one. Correspondence: families sharing aliases and long-lived provider dicts, random decoration order, 8-thread runs, nested calls; thread interleavings are tested, not proved." + CORR, "DESIGN.md 7 C09"),
     "C10": ("proof", "Theorems C10_none_skipped / C10_non_optional_none / C10_present_value_as_under_T / C10_general_union / C10_union_refused_at_decoration + correspondence on contexts rich in optional hints (five spellings) and None patterns." + CORR, "DESIGN.md 7 C10"),
     "C11": ("proof", "Theorems C11_elementwise / C11_one_element_tuple / C11_plain_positions_ignored / C11_element_names + correspondence on tuple hints of length 1-3 with plain positions, as parameter and return; reported element names compared." + CORR, "DESIGN.md 7 C11"),
     "C12": ("proof", "Theorems C12_prebind / C12_provided_sizes_belong_to_the_assignment / C12_bad_provider / C12_self_needs_method / C12_consulted_every_call + histories with changing provider values (fresh / long-lived dict, rebinding / in place), self providers, objects without the protocol." + CORR, "DESIGN.md 7 C12"),
